@@ -284,8 +284,16 @@ func checkCase(c Case) evid.Outcome {
 			}
 			adm := model.Admitting(rt.Compiled(later, q.M), q.P, nil, nil)
 			if hit.Handler < 0 {
-				if len(adm) > 0 {
-					return evid.Fail("later-route-unreachable", "%s %q is admitted by %q, registered after the candidate %s %q (%s), but nothing serves it", q.M, q.P, adm[0].Route.Canon, c.Final.M, c.Final.R, verdict)
+				// only routes that are registered for certain count here: the prefix,
+				// the later registrations, and the candidate if it had to be accepted
+				// (a refused candidate may or may not have reached some method trees)
+				definite := append([]rt.Reg(nil), c.Prefix...)
+				if verdict == model.MustAccept {
+					definite = append([]rt.Reg(nil), all...)
+				}
+				definite = append(definite, c.After...)
+				if da := model.Admitting(rt.Compiled(definite, q.M), q.P, nil, nil); len(da) > 0 {
+					return evid.Fail("later-route-unreachable", "%s %q is admitted by %q (history: %s, then the candidate %s %q (%s), then %s), but nothing serves it", q.M, q.P, da[0].Route.Canon, show(c.Prefix), c.Final.M, c.Final.R, verdict, show(c.After))
 				}
 				continue
 			}
